@@ -49,7 +49,7 @@ func c20Base(rng *rand.Rand, target int) *vfScenario {
 
 var c20Vals64 = []uint64{1<<64 - 1, 1<<64 - 32767, 1<<64 - 65536, 1 << 63, 1<<63 - 1, 1 << 40}
 
-var c20Vals = []uint32{0, 1, 0, 0, 0x7fffffff, 0xffffffff} // slots 2,3 are n-1, n+1
+var c20Vals = []uint32{0, 1, 0, 0, 0x7fffffff, 0xffffffff, 0x20000000, 0x20000001, 0x40000000, 0x10000000, 0x80000000, 0x15555556} // slots 2,3 are n-1, n+1; the last ones wrap when multiplied by 8, 4, 16, 2 or 12
 
 func c20Gen(class string, seed uint64, tier string) *vfScenario {
 	rng := vfRng(seed, 1)
@@ -59,7 +59,7 @@ func c20Gen(class string, seed uint64, tier string) *vfScenario {
 	case x < 30:
 		f.A, f.B = 0, int64(1+rng.IntN(40))
 	case x < 65:
-		f.A, f.B, f.S = 1, int64(1+rng.IntN(40)), fmt.Sprint(rng.IntN(6))
+		f.A, f.B, f.S = 1, int64(1+rng.IntN(40)), fmt.Sprint(rng.IntN(len(c20Vals)))
 	case x < 80:
 		f.A, f.B = 2, int64([]int{101, 102, 103, 104, 105, 201, 2, 0, 255, 1, 3}[rng.IntN(11)])
 	case x < 90:
@@ -134,7 +134,7 @@ func c20Enumerate(tier string, base uint64, emit func(*vfScenario)) {
 					add(vfFault{A: 0, B: int64(cut)})
 				}
 				for pos := 1; pos+4 <= len(body); pos += step {
-					for vi := 0; vi < 6; vi++ {
+					for vi := 0; vi < len(c20Vals); vi++ {
 						add(vfFault{A: 1, B: int64(pos), S: fmt.Sprint(vi)})
 					}
 				}
@@ -177,8 +177,8 @@ func c20Mutate(body []byte, f vfFault, seed uint64) []byte {
 			n := binary.BigEndian.Uint32(b[pos:])
 			var vi int
 			fmt.Sscanf(f.S, "%d", &vi)
-			v := c20Vals[vi%6]
-			switch vi % 6 {
+			v := c20Vals[vi%len(c20Vals)]
+			switch vi % len(c20Vals) {
 			case 2:
 				v = n - 1
 			case 3:
